@@ -28,6 +28,7 @@ def check(cx):
         'R2.2 every registry insert is dominated by "key not present", checked under the same write-guard region as the insert',
         'R2.3 whenever authenticate() can leave `authenticated` true it has registered the user under the connection\'s nick (or reset the flag / ended the session)',
         'R2.4 every mutation of a User entry in any handler is keyed by the connection\'s own nick, except the frozen foreign-target table (INVITE, KILL, DIE)',
+        'R2.5 the connection\'s nick is written only by ConnUserState::set_nick, which stores its argument unchanged on every path (the registry key the callers check and insert under is that same argument, C15 R15.2)',
         'R2.6 state effects outside the registration gate (teardown, select arms) that are keyed by the connection\'s nick are guarded by `authenticated`',
     ]
     ck.does_not_decide += ['which contender wins a race for a nickname (any single winner satisfies the property)']
@@ -149,6 +150,35 @@ def check(cx):
                 continue
             r4.violation('%s|foreign-user-mutation|%s|%s' % (hb, x['op'], suffix), '%s changes a user entry keyed by %s, which is not the '
                          'connection\'s own nick' % (hb, ', '.join(show_term(k) for k in ukeys)), loc=cx.loc(e.node))
+
+    # ---------------------------------------------------------------- R2.5
+    r5 = cx.rule('R2.5', 'connection nick setter stores its argument verbatim', floor=3, kind='provenance')
+    NICKP = ('param', 'nick')
+    fs = cx.fn('set_nick', 'ConnUserState')
+    ws = cx.walk(fs, args=[('param', 'self'), NICKP], key='c02')
+    stores = [e for e in ws.events if e.kind == 'assign' and not e.data.get('init') and e.data['lhs'] == ('field', ('param', 'self'), 'nick')]
+    r5.instance('set_nick: self.nick = Some(nick) unconditionally')
+    if len(stores) != 1 or stores[0].pc != T or stores[0].data['rhs'] != ('some', NICKP):
+        r5.violation('ConnUserState::set_nick|stored-value', 'set_nick does not store exactly its argument as the connection\'s nick on every '
+                     'path: the registry entry (keyed by the argument) and the connection\'s idea of its own nick diverge', loc=fs)
+    r5.instance('set_nick: the argument is not altered before it is stored')
+    from .common import _recv_mut
+    for e in ws.events:
+        touched = None
+        if e.kind == 'call' and e.data.get('args') and e.data['args'][0] == NICKP and \
+                ((not e.data.get('local') and _recv_mut(e, prog) and prog.ty(e.node['args'][0]).startswith('&mut ')) or
+                 (e.data.get('local') and local_mut_self(prog, e.data['callee']))):
+            touched = e.data['name']
+        if e.kind in ('assign', 'assignop') and not e.data.get('init') and root_of(e.data['lhs']) == NICKP:
+            touched = 'assignment'
+        if touched and (not stores or e.seq < stores[0].seq):
+            r5.violation('ConnUserState::set_nick|argument-altered|%s' % touched, 'set_nick changes its argument (%s) before storing it: the '
+                         'connection then answers to a nick other than the one its registry entry is keyed by' % touched, loc=cx.loc(e.node))
+    r5.instance('writers of ConnUserState.nick')
+    for fn, e in census:
+        if e.kind == 'assign' and not e.data.get('init') and path_of(e.data['lhs'])[-1:] == ['nick'] and \
+                (e.data.get('lhs_node') or {}).get('adt', '').endswith('ConnUserState') and base_fn(fn) != 'set_nick':
+            r5.violation('%s|writes-conn-nick' % base_fn(fn), '%s writes the connection\'s nick directly' % base_fn(fn), loc=cx.loc(e.node))
 
     # ---------------------------------------------------------------- R2.6
     r6 = cx.rule('R2.6', 'own-nick effects outside the gate need `authenticated`', floor=1, kind='required-guard')
